@@ -1,4 +1,5 @@
 import ZvbiModel.Ttx.Chain4
+import ZvbiModel.Ttx.OwnAux3
 /-!
 # C02 round 5, part 5: one transmission inside a cycle - the combined invariant, the items between two headers,
 opening (`seg_open`) and closing (`seg_close`) a page
@@ -148,11 +149,13 @@ theorem foreign_find {tmpl : List Nat} {off : Nat} (s : St) (p : Packet) (m m' k
 
 /-! ## what is sent between two headers of magazine `m`: sender-side conditions -/
 
-/-- an own item is a row 1..25 of the page with odd-parity bytes; a foreign item belongs to another magazine and, if
+/-- an own item is a row 1..25 of the page with odd-parity bytes - or (round 6, `.ownx`) one of the page's packets
+    X/26, X/27, X/28 (not X/28/3) or M/29 of its magazine; a foreign item belongs to another magazine and, if
     it is a page header, its page number decodes (E1).  The other three clauses of `Benign` follow from `CInv` / `Good`. -/
 def ItemPlain (m : Nat) : Item → Prop
   | .own k p => IsPacket p m k ∧ 1 ≤ k ∧ k ≤ 25 ∧ GoodRow (payload p)
   | .foreign m' k p => m' ≠ m ∧ IsPacket p m' k ∧ (k = 0 → ∃ page, a16 p 2 = some page)
+  | .ownx k p => IsPacket p m k ∧ IsAux p k
 
 theorem benign_of {tmpl : List Nat} {off : Nat} (s : St) (p : Packet) (m' k : Nat) (h : CInv tmpl off s)
     (hp : IsPacket p m' k) (g : Good tmpl off p) (hpg : k = 0 → ∃ page, a16 p 2 = some page) : Benign s p m' k := by
@@ -214,6 +217,20 @@ theorem items_frame {tmpl : List Nat} {off : Nat} (m : Nat) (hm : m < 8) : ∀ (
       · intro f hf; rw [r3 f hf, hfind f hf]
       · rw [magPages_append, r4, magPages_foreign m m' hm hp.1 hne _ f3]; rfl
       · intro x hx; exact r5 x hx
+    | ownx k p =>
+      obtain ⟨hp, hk⟩ := hpl
+      have hlen : m < s.raw.length := by rw [h.i.shape.len]; exact hm
+      obtain ⟨a1, a2, _, a4⟩ := own_aux_step s p m k hp hk h.i.shape.cd h.i.mask hfn hlen
+      have hfn1 : ((step s p).1.rp m).page.function = FN_LOP := by rw [a1.fn]; exact hfn
+      obtain ⟨r1, r2, r3, r4, r5⟩ := ih (step s p).1 hc1 hfn1 hrest
+      simp only [List.map_cons, Item.pkt, run_cons]
+      refine ⟨r1, ⟨⟨hp, hk⟩, r2⟩, ?_, ?_, ?_⟩
+      · intro f hf; rw [r3 f hf, a2]
+      · rw [magPages_append, r4, List.append_nil]
+        unfold magPages
+        rw [a4.pages]
+        rfl
+      · intro x hx; exact r5 x hx
 
 /-! ## opening and closing a page -/
 
@@ -256,7 +273,7 @@ theorem seg_open {tmpl : List Nat} {off : Nat} (s : St) (h : CInv tmpl off s) (t
   generalize (decodeTeletext (tick s) hdr).st = s2 at ho hc2 ⊢
   generalize (decodeTeletext (tick s) hdr).ev = ev2 at he ⊢
   obtain ⟨i1, i2, i3, i4, i5⟩ := items_frame t.m hm items s2 hc2 ho.fn hitems
-  have hmid0 : Mid s2 s2 t.m [] := ⟨hc2.i, ⟨t.m, ho.cur⟩, rfl, rfl, rfl⟩
+  have hmid0 : Mid s2 s2 t.m [] := ⟨hc2.i, ⟨t.m, ho.cur⟩, SameText.refl _, rfl, rfl⟩
   obtain ⟨hmid, _, _⟩ := run_items s2 t.m hm ho.fn t.pgno ⟨t.page, a16_lt hdr 2 _ hh.page, rfl⟩ items s2 [] hmid0 i2
   simp only [List.nil_append] at hmid
   generalize (run s2 (items.map Item.pkt)).1 = sR at hmid i1 i3 ⊢
@@ -265,12 +282,12 @@ theorem seg_open {tmpl : List Nat} {off : Nat} (s : St) (h : CInv tmpl off s) (t
   have hready : Ready sR (s1Of s t) t hdr (rowsOf (ownRows items)) := by
     refine ⟨hmid.inv.shape.len, hmid.inv.mask, hmid.inv.shape.cd, parallelCur_of sR hmid.inv.shape hmid.inv.par c hc,
       ?_, ?_, ?_, ?_, ?_, ?_, ?_, ?_⟩
-    · rw [hmid.page]; exact ho.fn
-    · rw [hmid.page]; exact ho.pg
-    · rw [hmid.page]; exact ho.sub
-    · rw [hmid.page]; exact ho.nat
-    · rw [hmid.page]; exact ho.flags
-    · rw [hmid.page]; exact ho.raw
+    · rw [hmid.page.fn]; exact ho.fn
+    · rw [hmid.page.pgno]; exact ho.pg
+    · rw [hmid.page.subno]; exact ho.sub
+    · rw [hmid.page.national]; exact ho.nat
+    · rw [hmid.page.flags]; exact ho.flags
+    · rw [hmid.page.raw]; exact ho.raw
     · rw [hmid.lr, ho.lr]
     · rw [hmid.lp, ho.lp]
   have hrows : ∀ r ∈ rowsOf (ownRows items), 1 ≤ r.1 ∧ r.1 ≤ 25 ∧ GoodRow r.2 := by
@@ -290,6 +307,7 @@ theorem seg_open {tmpl : List Nat} {off : Nat} (s : St) (h : CInv tmpl off s) (t
           · exact ⟨hk1, hk2, hgr⟩
           · exact ih hrest r hr
         | foreign m' k p => exact ih hrest r hr
+        | ownx k p => exact ih hrest r hr
     exact gen items hitems
   refine ⟨i1, hready, hL, hrows, ?_, ?_⟩
   · intro f hf hget
@@ -308,11 +326,22 @@ theorem seg_close {tmpl : List Nat} {off : Nat} (s s1 : St) (h : CInv tmpl off s
       ∧ Fetched q t s1 hdr rows pt ∧ pt ≠ PT_CLOCK
       ∧ ttxPages (terminatePage (tick s) t.m pgnoQ pageQ).2 = [(t.pgno, t.subno)]
       ∧ (∀ f, PutKeeps f t.pgno t.subno →
-          (terminatePage (tick s) t.m pgnoQ pageQ).1.net.cache.find? f = s.net.cache.find? f) := by
+          (terminatePage (tick s) t.m pgnoQ pageQ).1.net.cache.find? f = s.net.cache.find? f)
+      -- (round 6) the entry carries the FLOF links / X/28 record of the page in progress
+      ∧ CarriesAux q (s.rp t.m).page := by
   have hT := h.tick
   have hn := (terminatePage_hinv tmpl off (tick s) t.m pgnoQ pageQ hm hT.h).2
   obtain ⟨q, rest, pt, h1, h2, h3, h4⟩ := page_stored' s s1 t hdr rows hr hm hdec hL hrows pgnoQ pageQ hne hn
-  refine ⟨q, rest, pt, h1, h2, ?_, h4, ?_⟩
+  have hcar : CarriesAux q (s.rp t.m).page := by
+    have hand := (pgno_facts t.m t.page hm hdec).2
+    have hts := terminatedSlot_parallel (tick s) t.m pgnoQ pageQ hr.par
+      (by show (s.rp t.m).page.pgno &&& 0xFF ≠ pageQ; rw [hr.pg]; unfold Tx.pgno; rw [hand]; exact fun e => hne e.symm)
+    obtain ⟨q', rest', e', c'⟩ := close_carries (tick s) t.m t.m pgnoQ pageQ hr.cd hts hr.fn
+      (by show validPgno (s.rp t.m).page.pgno; rw [hr.pg]; exact (pgno_facts t.m t.page hm hdec).1) hn
+    rw [h1] at e'
+    injection e' with e1 _
+    rw [e1]; exact c'
+  refine ⟨q, rest, pt, h1, h2, ?_, h4, ?_, hcar⟩
   · intro hpt
     have := h3 hpt
     rcases h.t.net.stat t.pgno with e | e <;> rw [e] at this <;> revert this <;> decide
